@@ -768,6 +768,9 @@ class ExcelCompiler:
                 self.cell_map[str(address)] = ref_cell
                 # the reference depends on the range it stands for
                 ref_nodes.append(ref_cell)
+                # and gets its value with the ranges, so that a dependant
+                # loaded with a stored result has no unevaluated precedent
+                self.range_todos.append(str(address))
 
             self.range_todos.append(str(excel_data.address))
             new_nodes = build_range(excel_data) + ref_nodes
